@@ -96,6 +96,8 @@ type Sim struct {
 	StallProb  int  // per-step chance (out of 1000) of a voluntary time advance when not Fair
 	StallMenu  []time.Duration
 	StallsLeft int
+	FairSince  time.Duration // simulated instant at which fair mode began
+	FairAfter  time.Duration // >0: switch to fair mode once this much simulated time has passed
 
 	// observers, run on the scheduler goroutine while everything else is blocked
 	OnStep []func()
@@ -460,6 +462,10 @@ func (s *Sim) Run(main func()) Outcome {
 		if s.Step > s.MaxSteps {
 			return Budget
 		}
+		if s.FairAfter > 0 && !s.Fair && time.Since(s.start) >= s.FairAfter {
+			s.Fair = true
+			s.FairSince = time.Since(s.start)
+		}
 		if !s.Fair && s.StallProb > 0 && s.StallsLeft > 0 && s.C.Draw("stall?", 1000) < s.StallProb {
 			d := s.StallMenu[s.C.Draw("stall.d", len(s.StallMenu))]
 			s.StallsLeft--
@@ -561,4 +567,9 @@ func (s *Sim) NameOf(gid uint64) string {
 }
 
 // SetFair switches to fair mode (no voluntary stalls).
-func (s *Sim) SetFair() { s.Fair = true }
+func (s *Sim) SetFair() {
+	if !s.Fair {
+		s.Fair = true
+		s.FairSince = time.Since(s.start)
+	}
+}
